@@ -118,11 +118,16 @@ public:
      * Called before and after the parse of each block of text (a
      * label, a declaration block, a whole file). The builder must
      * drop whatever productions discarded by error recovery left
-     * behind (if \a success is false the parse was abandoned
-     * altogether), so that the following blocks are not affected.
+     * behind, so that the following blocks are not affected.
+     * \a success is false if the parse was abandoned altogether.
+     * \a results is the number of expressions a successfully
+     * parsed block of this kind hands over on the expression stack
+     * (1 for an invariant, a rate or a plain expression, 0 for
+     * blocks whose productions consume their operands), or -1 if
+     * that number is not fixed.
      */
     virtual void parse_begin() {}
-    virtual void parse_end(bool success) {}
+    virtual void parse_end(bool success, int results) {}
 
     /**
      * Must return true if and only if name is registered in the
